@@ -160,7 +160,7 @@ func vfC20NewBuilder(t *rapid.T) (b *vfC20Builder) {
 		ts:       base,
 		base:     base,
 		zoneMode: rapid.IntRange(0, 3).Draw(t, "zone_mode"),
-		flavour:  rapid.IntRange(0, 3).Draw(t, "flavour"),
+		flavour:  rapid.IntRange(0, 4).Draw(t, "flavour"),
 	}
 }
 
@@ -195,7 +195,7 @@ func (b *vfC20Builder) zone() (loc *time.Location) {
 
 // vfC20MakeLine renders a log line of exactly n bytes when n >= vfC20MinExact
 // (the minimal line otherwise).  Flavours: 0 short form, 1 the form written by
-// the current encoder, 2 the legacy "Time" form.
+// the current encoder, 2 the legacy "Time" form, 4 the address-first form.
 func vfC20MakeLine(tsText string, n, idx, flavour int) (line string) {
 	var head, tail string
 	switch flavour {
@@ -205,6 +205,11 @@ func vfC20MakeLine(tsText string, n, idx, flavour int) (line string) {
 	case 2:
 		head = `{"Time":"` + tsText + `","IP":"192.0.2.1","Question":"`
 		tail = `"}`
+	case 4:
+		// the layout of earlier releases (and of the fixtures of the package's
+		// own tests): the address comes first, here a long one
+		head = `{"IP":"` + []string{"2001:db8:85a3:8d3:1319:8a2e:370:7348", "::ffff:203.0.113.77", "10.0.0.1"}[idx%3] + `","T":"` + tsText + `","QH":"h.example.org","QT":"A","QC":"IN","Answer":"`
+		tail = `","Elapsed":837429}`
 	default:
 		head = `{"T":"` + tsText + `","A":"`
 		tail = `"}`
@@ -231,7 +236,8 @@ func (b *vfC20Builder) add(n int) (got int) {
 	b.ts += vfC20GapGen.Draw(b.t, "gap")
 	fl := b.flavour
 	if fl == 3 {
-		fl = b.idx % 3
+		// mixed
+		fl = []int{0, 1, 2, 4}[b.idx%4]
 	}
 	text := time.Unix(0, b.ts).In(b.zone()).Format(time.RFC3339Nano)
 	line := vfC20MakeLine(text, n, b.idx, fl)
